@@ -156,14 +156,18 @@ structure Inv (pre : List StreamMeta) (sys : Sys) : Prop where
   noEmpty : ∀ n, (n, none) ∉ cpuFacts pre
   cpuLoom : ∀ c ∈ sys.cpus, c.loom ∈ sys.looms
   procLoom : ∀ p ∈ sys.procs, p.loom ∈ sys.looms
+  thrLoom : ∀ t ∈ sys.threads, t.loom ∈ sys.looms
+  thrProc : ∀ t ∈ sys.threads, (t.loom, t.pid) ∈ sys.procs.map pkey
 
 theorem Inv.nil : Inv [] Sys.empty := by
-  refine ⟨List.nodup_nil, ?_, rfl, rfl, List.nodup_nil, ?_, ProcInv.nil, CpuInv.nil, ?_, ?_, ?_⟩
+  refine ⟨List.nodup_nil, ?_, rfl, rfl, List.nodup_nil, ?_, ProcInv.nil, CpuInv.nil, ?_, ?_, ?_, ?_, ?_⟩
   · intro n h; cases h
   · intro s h; cases h
   · intro n h; cases h
   · intro c h; cases h
   · intro p h; cases h
+  · intro t h; cases h
+  · intro t h; cases h
 
 theorem skelOf_snoc (ts : List ThreadPart) (t : ThreadPart) :
     skelOf (ts ++ [t]) = skelStep (skelOf ts) t := by
@@ -293,7 +297,15 @@ theorem step_ok {m : Mode} {pre : List StreamMeta} {sys sys' : Sys} {s : StreamM
           intro x hx; rw [l1]; split
           · exact hx
           · exact List.mem_append_left _ hx
-        refine ⟨?_, ?_, ?_, ?_, ?_, ?_, ?_, ?_, ?_, ?_, ?_⟩
+        have hpsub : ∀ k ∈ sys.procs.map pkey, k ∈ ps.map pkey := by
+          intro k hk; rw [p3]; split
+          · exact hk
+          · exact List.mem_append_left _ hk
+        have hpn : (n, s.tp.pid) ∈ ps.map pkey := by
+          rw [p3]; split
+          · assumption
+          · exact List.mem_append_right _ (by simp)
+        refine ⟨?_, ?_, ?_, ?_, ?_, ?_, ?_, ?_, ?_, ?_, ?_, ?_, ?_⟩
         · rw [l1]; split
           · exact inv.loomsNodup
           · rename_i hm
@@ -348,11 +360,22 @@ theorem step_ok {m : Mode} {pre : List StreamMeta} {sys sys' : Sys} {s : StreamM
           rcases mem_createProc_loom inv.procs hps q hq with h1 | ⟨q', hq', h1⟩
           · rw [h1]; exact hnl
           · rw [← h1]; exact hsub _ (inv.procLoom q' hq')
+        · intro t ht
+          rw [t4] at ht
+          rcases List.mem_append.1 ht with ht | ht
+          · exact hsub _ (inv.thrLoom t ht)
+          · simp only [List.mem_singleton] at ht; subst ht; exact hnl
+        · intro t ht
+          rw [t4] at ht
+          rcases List.mem_append.1 ht with ht | ht
+          · exact hpsub _ (inv.thrProc t ht)
+          · simp only [List.mem_singleton] at ht; subst ht; exact hpn
     · rw [step_other hpart hthr] at h
       cases h
       have hne : s.tp.part ≠ some sThread := by rw [hpart]; simpa using hthr
       obtain ⟨f1, f2, f3, f4⟩ := factsOf_other hne
-      refine ⟨inv.loomsNodup, inv.loomsOK, ?_, ?_, ?_, ?_, ?_, ?_, ?_, inv.cpuLoom, inv.procLoom⟩
+      refine ⟨inv.loomsNodup, inv.loomsOK, ?_, ?_, ?_, ?_, ?_, ?_, ?_, inv.cpuLoom, inv.procLoom,
+        inv.thrLoom, inv.thrProc⟩
       · rw [List.map_append, List.map_cons, List.map_nil, skelOf_snoc, ← inv.skelEq]
         simp [skelStep, hne]
       · rw [thrKeys_snoc, f4, List.append_nil]; exact inv.thrRows
